@@ -85,6 +85,99 @@ want('motion_max_change_set_count', t, r'const MOTION_MAX_CHANGE_SET_COUNT:\s*us
 for nm in ('Boom', 'Arm', 'Attachment', 'Slew', 'LimpLeft', 'LimpRight'):
     want('actuator_' + nm, t, r'enum Actuator\s*\{.*?\b%s\s*=\s*(\d+)' % nm, 'core/motion.rs Actuator')
 
+# ---- protocol constants
+t = src('protocol/mod.rs')
+m = re.search(r"const PROTO_HEADER:\s*\[u8;\s*3\]\s*=\s*\[b'(.)',\s*b'(.)',\s*b'(.)'\]", t)
+if m:
+    defs.append(('proto_header', 'list Z', '[%d; %d; %d]' % tuple(ord(m.group(i)) for i in (1, 2, 3)), 'protocol/mod.rs PROTO_HEADER'))
+else:
+    errors.append('PROTO_HEADER not found')
+want('proto_version', t, r'const PROTO_VERSION:\s*u8\s*=\s*(0x[0-9a-fA-F]+|\d+)', 'protocol/mod.rs')
+want('max_payload_size', t, r'const MAX_PAYLOAD_SIZE:\s*usize\s*=\s*([\d_]+)', 'protocol/mod.rs')
+
+def sizeexpr(e):
+    e = e.strip()
+    e = re.sub(r'std::mem::size_of::<f32>\(\)', '4', e)
+    e = re.sub(r'std::mem::size_of::<u8>\(\)', '1', e)
+    e = re.sub(r'std::mem::size_of::<u16>\(\)', '2', e)
+    if not re.fullmatch(r'[\d\s\+\*\(\)_]+', e):
+        raise ValueError('unsupported size expression ' + e)
+    return int(eval(e.replace('_', '')))
+
+tf = src('protocol/frame.rs')
+fm = dict((k, num(v)) for k, v in re.findall(r'\b(_?\w+)\s*=\s*(0x[0-9a-fA-F]+)', (re.search(r'enum FrameMessage\s*\{(.*?)\}', tf, re.S) or [None, ''])[1]))
+types = []
+def packet(name, rel, typ, text=None, msg_from_enum=None):
+    tt = text if text is not None else src(rel)
+    blk = re.search(r'impl\s+(?:crate::protocol::|super::)?Packetize\s+for\s+%s\s*\{(.*?)\n\}' % typ, tt, re.S)
+    if not blk:
+        errors.append('Packetize impl for %s not found in %s' % (typ, rel)); return
+    b = blk.group(1)
+    m = re.search(r'const MESSAGE_TYPE:\s*u8\s*=\s*([^;]+);', b)
+    if not m:
+        errors.append('MESSAGE_TYPE of %s not found' % typ); return
+    e = m.group(1).strip()
+    if msg_from_enum:
+        if msg_from_enum not in fm:
+            errors.append('FrameMessage::%s not found' % msg_from_enum); return
+        v = fm[msg_from_enum]
+    else:
+        v = num(e.split('//')[0])
+    defs.append(('type_' + name, 'Z', '(%d)' % v, rel + ' ' + typ + '::MESSAGE_TYPE'))
+    types.append(v)
+    m = re.search(r'const MESSAGE_SIZE:\s*Option<usize>\s*=\s*Some\((.*)\);', b)
+    if m:
+        try:
+            defs.append(('size_' + name, 'Z', '(%d)' % sizeexpr(m.group(1)), rel + ' ' + typ + '::MESSAGE_SIZE'))
+        except Exception as ex:
+            errors.append('MESSAGE_SIZE of %s: %s' % (typ, ex))
+    else:
+        defs.append(('size_' + name + '_is_variable', 'bool', 'true', rel + ' ' + typ + ' has no MESSAGE_SIZE'))
+packet('error', 'protocol/frame.rs', 'SessionError', tf, 'Error')
+packet('session', 'protocol/frame.rs', 'Session', tf, 'Session')
+packet('request', 'protocol/frame.rs', 'Request', tf, 'Request')
+packet('instance', 'core/instance.rs', 'Instance')
+packet('status', 'core/status.rs', 'ModuleStatus')
+packet('motion', 'core/motion.rs', 'Motion')
+packet('gnss', 'core/gnss.rs', 'Gnss')
+packet('engine', 'core/engine.rs', 'Engine')
+packet('target', 'core/target.rs', 'Target')
+packet('control', 'core/control.rs', 'Control')
+packet('rotator', 'core/rotation.rs', 'Rotator')
+packet('actor', 'world/mod.rs', 'Actor')
+defs.append(('all_types', 'list Z', '[' + '; '.join(str(v) for v in types) + ']', 'the twelve MESSAGE_TYPE codes'))
+m = re.search(r'pub const MODE_STREAM: u8 = (0b[01_]+);', tf)
+for nm in ('STREAM', 'CONTROL', 'COMMAND', 'FAILSAFE'):
+    want('session_mode_' + nm.lower(), tf, r'pub const MODE_%s:\s*u8\s*=\s*(0b[01_]+|0x[0-9a-fA-F]+|\d+)' % nm, 'protocol/frame.rs Session')
+want('session_flag_mask', tf, r'let mask = (0b[01_]+)', 'protocol/frame.rs Session::try_from')
+
+t = src('core/target.rs')
+blk = re.search(r'enum Constraint\s*\{(.*?)\n\}', t, re.S)
+vals = [num(x) for x in re.findall(r'=\s*(\d+)', blk.group(1))] if blk else []
+if not vals: errors.append('Constraint discriminants not found')
+defs.append(('constraint_values', 'list Z', '[' + '; '.join(map(str, vals)) + ']', 'core/target.rs Constraint'))
+
+t = src('core/control.rs')
+ctl = re.findall(r'const CONTROL_TYPE_(\w+):\s*u8\s*=\s*(0x[0-9a-fA-F]+|\d+)', t)
+if len(ctl) < 2: errors.append('CONTROL_TYPE_* not found')
+for nm, v in ctl:
+    defs.append(('control_type_' + nm.lower(), 'Z', '(%d)' % num(v), 'core/control.rs'))
+defs.append(('control_types', 'list Z', '[' + '; '.join(str(num(v)) for _, v in ctl) + ']', 'core/control.rs all CONTROL_TYPE_*'))
+
+t = src('core/status.rs')
+blk = re.search(r'enum ModuleState\s*\{(.*?)\n\}', t, re.S)
+vals = [num(x) for x in re.findall(r'=\s*(0x[0-9a-fA-F]+)', blk.group(1))] if blk else []
+if not vals: errors.append('ModuleState discriminants not found')
+defs.append(('module_states', 'list Z', '[' + '; '.join(map(str, vals)) + ']', 'core/status.rs ModuleState'))
+for nm in ('Healthy', 'Degraded', 'Faulty', 'Emergency'):
+    want('module_state_' + nm, t, r'enum ModuleState\s*\{.*?\b%s\s*=\s*(0x[0-9a-fA-F]+)' % nm, 'core/status.rs ModuleState')
+
+t = src('core/gnss.rs')
+blk = re.search(r'enum GnssStatus\s*\{(.*?)\n\}', t, re.S)
+vals = [num(x) for x in re.findall(r'=\s*(0x[0-9a-fA-F]+)', blk.group(1))] if blk else []
+if not vals: errors.append('GnssStatus discriminants not found')
+defs.append(('gnss_statuses', 'list Z', '[' + '; '.join(map(str, vals)) + ']', 'core/gnss.rs GnssStatus'))
+
 EXTRA = os.path.join(os.path.dirname(os.path.abspath(__file__)), 'rs2v_extra.py')
 if os.path.exists(EXTRA):
     exec(compile(open(EXTRA).read(), EXTRA, 'exec'))
